@@ -81,6 +81,7 @@ class Sub:
             self.port = self.server._sock.getsockname()[1]
         else:
             self.server = UNIXServer(self.path, channel='srv').register(self.root)
+        self.listen_sock = getattr(self.server, '_sock', None)
         self.log = []
         obs = Obs(channel='srv')
         obs.log = self.log
@@ -156,7 +157,16 @@ class ConnModel(e1_history.Model):
                  'filled': False, 'swrites': 0, 'big': False} for c in range(self.nconn)}
         for op, c in hist:
             s = g[c]
-            if op == 'connect':
+            if op == 'scloseall':
+                # close() without a socket: the listening socket and every connection
+                for x in g.values():
+                    x['listening'] = False
+                    if x['phase'] == 'open':
+                        if x['ended']:
+                            x['late_c'] += 1
+                        x['sclosed'] = True
+                        x['ended'] = True
+            elif op == 'connect':
                 s['phase'], s['peer_open'] = 'open', True
             elif op == 'sendbig':
                 s['big'] = True
@@ -187,7 +197,9 @@ class ConnModel(e1_history.Model):
             s = g[c]
             for op in self.ops:
                 if op == 'connect':
-                    ok = s['phase'] == 'none'
+                    ok = s['phase'] == 'none' and s.get('listening', True)
+                elif op == 'scloseall':
+                    ok = c == 0 and s.get('listening', True) and any(x['phase'] == 'open' for x in g.values())
                 elif op in ('send1', 'send5'):
                     ok = s['phase'] == 'open' and s['peer_open'] and not s['shut']
                 elif op == 'sendbig':
@@ -260,6 +272,8 @@ class ConnModel(e1_history.Model):
             sub.root.fire(write(sock, b'z' * (1 << 20)), 'srv')
         elif name == 'sclose':
             sub.root.fire(close(sock), 'srv')
+        elif name == 'scloseall':
+            sub.root.fire(close(), 'srv')
         sub.steps(3)
 
     def close(self, w):
@@ -288,6 +302,8 @@ class ConnModel(e1_history.Model):
                 if key is None:
                     if nm in ('connect',):
                         continue
+                    if sock is sub.listen_sock and nm == 'disconnect' and any(o[0] == 'scloseall' for o in hist):
+                        continue      # closing the listening socket is announced with a disconnect of its own; not a connection
                     bad.append(('unknown-socket', '%s: %s for a socket no connect event announced' % (sub.pname, nm)))
                     continue
                 per.setdefault(key, []).append((nm, data))
@@ -365,7 +381,7 @@ class ConnModel(e1_history.Model):
             live = [sub.socks[c] for c in sub.socks if 'disconnect' not in [e[0] for e in per.get(c, [])]]
             for attr in ('_read', '_write'):
                 for x in list(getattr(sub.poller, attr, []) or []):
-                    if isinstance(x, int) or x is getattr(sub.server, '_sock', None) or any(x is y for y in live):
+                    if isinstance(x, int) or (x is sub.listen_sock and getattr(sub.server, '_sock', None) is x) or any(x is y for y in live):
                         continue
                     if any(x is y for y in sub.socks.values()):
                         continue      # (a disconnected connection's socket: reported by the residue clause above)
@@ -792,7 +808,8 @@ class ClientModel(e1_history.Model):
 
 def run(tier, seed, workers):
     total = core.Stats()
-    plan = [(1, OPS, 5), (2, ['connect', 'sendbig', 'pclose', 'swrite', 'sclose'], 5)] if tier == 'quick' else [(1, OPS, 8), (2, OPS, 6)]
+    plan = [(1, OPS, 5), (2, ['connect', 'sendbig', 'pclose', 'swrite', 'sclose', 'scloseall'], 5)] if tier == 'quick' else \
+        [(1, OPS + ['scloseall'], 8), (2, OPS + ['scloseall'], 6), (3, ['connect', 'send5', 'pclose', 'sfill', 'scloseall'], 5)]
     states = 0
     tmpdir()
     try:
